@@ -198,7 +198,9 @@ func c12Exec(t *testing.T, rng *vrng, plan int) (c12In, c12Obs) {
 			valid := true
 			if rng.chance(25) {
 				valid = false
-				switch rng.intn(6) {
+				switch rng.intn(7) {
+				case 6: // lists with an empty element
+					b.TxHash = hexs([]string{goodHash() + ",", "," + goodHash(), goodHash() + ",," + goodHash(), ","}[rng.intn(4)])
 				case 0:
 					b.TxHash = hexs("zz" + goodHash()[2:])
 				case 1:
